@@ -11,7 +11,7 @@ import time
 import traceback
 
 ROOT = os.path.dirname(os.path.dirname(os.path.abspath(__file__)))
-EVIDENCE_DIR = os.path.join(ROOT, "evidence")
+EVIDENCE_DIR = os.environ.get("VERIF_EVIDENCE_DIR") or os.path.join(ROOT, "evidence")   # (scratch runs against seeded trees set VERIF_EVIDENCE_DIR)
 REPLAY_DIR = os.path.join(EVIDENCE_DIR, "replays")
 FINDINGS_FILE = os.path.join(ROOT, "known_findings.json")
 
